@@ -330,13 +330,14 @@ def shard_plan(tier):
     if tier == 'quick':
         plan = [('HALF', 3, 2, 3, True), ('DEC1', 2, 3, 2, False), ('STRX', 3, 2, 2, False), ('STRY', 2, 3, 2, False), ('P300', 3, 2, 2, False)]
     else:
-        plan = [('HALF', 3, 2, 4, True), ('DEC1', 3, 2, 3, True), ('DEC3', 2, 3, 3, True), ('HALF', 3, 3, 3, False),
-                ('DEC7', 4, 1, 4, True), ('STRX', 3, 2, 3, False), ('STRY', 2, 3, 3, False), ('P300', 3, 2, 3, False)]
+        # depth 2 with all 8 operations on the larger plan; depth 3 (6 operations) on the small plan marked deep=True
+        plan = [('HALF', 3, 2, 3, True), ('DEC1', 3, 2, 3, True), ('DEC3', 2, 3, 3, False), ('STRX', 3, 2, 3, False), ('STRY', 2, 3, 3, False),
+                ('P300', 3, 2, 3, False), ('DEC7', 4, 1, 4, False), ('HALF', 2, 2, 2, 'deep'), ('DEC1', 2, 1, 2, 'deep')]
     for (fam, nx, ny, kmax, rich) in plan:
         n = len(layouts(nx, ny, kmax))
         step = 4
         for lo in range(0, n, step):
-            out.append(dict(fam=fam, nx=nx, ny=ny, kmax=kmax, rich=rich, lo=lo, hi=min(n, lo + step)))
+            out.append(dict(fam=fam, nx=nx, ny=ny, kmax=kmax, rich=(rich is True), deep=(rich == 'deep'), lo=lo, hi=min(n, lo + step)))
     return out
 
 
@@ -478,7 +479,7 @@ class Checker:
 
 
 def run_shard_common(mode, shard, tier, res):
-    depth = 2 if tier == 'quick' else 3
+    depth = 3 if shard.get('deep') else 2
     fam = shard['fam']
     fx, fy = fam_axes(fam)
     scale = float(max(fx(shard['nx']), fy(shard['ny'])))
@@ -487,7 +488,7 @@ def run_shard_common(mode, shard, tier, res):
     for cells in shard_states(shard):
         ck = Checker(mode, res, fam, cells)
         t_before = res.transitions
-        explore(cells, depth, ck.on_state, ck.on_transition, res, scale, OPS_QUICK if tier == 'quick' else OPS, prior=fam.startswith('P'))
+        explore(cells, depth, ck.on_state, ck.on_transition, res, scale, OPS_QUICK if (tier == 'quick' or shard.get('deep')) else OPS, prior=fam.startswith('P'))
         if res.transitions > t_before:
             n0 += 1
             if first is None:
